@@ -74,13 +74,14 @@ macro_rules! i1_indexes {
 		fn $name() {
 			let mut ix = any_indexes($extra);
 			let s = positions(&ix).unwrap();
+			let rep0 = ix.rep;
 			let i: usize = kani::any();
 			kani::assume(i < 9);
 			let op: u8 = kani::any();
 			match op {
 				0 => {
 					ix.insert(i);
-					assert!(positions(&ix) == Some(s | (1 << i)), "C06:indexes-insert-adds-the-position-keeps-order");
+					assert!(positions(&ix) == Some(s | (1 << i)), "C02+C06:indexes-insert-adds-the-position-keeps-order");
 				}
 				1 => {
 					let r = ix.remove(i);
@@ -103,8 +104,8 @@ macro_rules! i1_indexes {
 			assert!(ix.first() == (positions(&ix).unwrap().trailing_zeros() as usize), "C06:representative-is-the-first-position");
 			assert!(ix.len() == positions(&ix).unwrap().count_ones() as usize, "C06:indexes-len");
 			assert!(ix.is_redundant() == (ix.len() > 1), "C06:indexes-is-redundant");
-			kani::cover!(op == 0 && i < ix.rep);
-			kani::cover!(op == 1 && s != 1 << i && s & (1 << i) != 0);
+			kani::cover!(op == 0 && i < rep0);
+			kani::cover!($extra == 0 || (op == 1 && s != 1 << i && s & (1 << i) != 0));
 			kani::cover!(op == 2);
 			kani::cover!(op == 3);
 			core::mem::forget(ix);
